@@ -44,6 +44,8 @@ pub struct Cfg {
     pub manual_persist: bool,
     /// keyspaces created at start (names x, y, z)
     pub nks: usize,
+    /// values carry their provenance `<keyspace><incarnation>#<n>` (C12)
+    pub prov: bool,
 }
 
 impl Cfg {
@@ -56,6 +58,7 @@ impl Cfg {
             lz4: true,
             manual_persist: false,
             nks: 2,
+            prov: false,
         }
     }
     pub fn name(&self) -> String {
@@ -72,13 +75,13 @@ impl Cfg {
     }
     pub fn to_spec(&self) -> String {
         format!(
-            "{:?},{},{},{:?},{},{},{}",
-            self.kind, self.blob as u8, self.tiny as u8, self.strat, self.lz4 as u8, self.manual_persist as u8, self.nks
+            "{:?},{},{},{:?},{},{},{},{}",
+            self.kind, self.blob as u8, self.tiny as u8, self.strat, self.lz4 as u8, self.manual_persist as u8, self.nks, self.prov as u8
         )
     }
     pub fn from_spec(s: &str) -> Option<Cfg> {
         let f: Vec<&str> = s.split(',').collect();
-        if f.len() != 7 {
+        if f.len() != 7 && f.len() != 8 {
             return None;
         }
         Some(Cfg {
@@ -99,6 +102,7 @@ impl Cfg {
             lz4: f[4] == "1",
             manual_persist: f[5] == "1",
             nks: f[6].parse().ok()?,
+            prov: f.get(7).map(|x| *x == "1").unwrap_or(false),
         })
     }
     pub fn ks_opts(&self) -> KeyspaceCreateOptions {
@@ -156,6 +160,14 @@ pub enum Op {
     Create { ks: u8 },
     Delete { ks: u8 },
     Persist { mode: u8 },
+    /// delete the keyspace but keep a clone of the handle (slot in `World.old`)
+    DeleteKeep { ks: u8 },
+    /// insert through an old handle of a deleted keyspace: must be refused with KeyspaceDeleted
+    OldIns { slot: u8 },
+    OldRem { slot: u8 },
+    OldDrop { slot: u8 },
+    /// open an existing keyspace again with different options: must return the existing content
+    OpenOther { ks: u8 },
 }
 
 pub fn ksn(i: u8) -> &'static str {
@@ -222,6 +234,11 @@ impl std::fmt::Display for Op {
                 "persist {}",
                 ["Buffer", "SyncData", "SyncAll"][*mode as usize]
             ),
+            Op::DeleteKeep { ks } => write!(f, "delete-keep-handle {}", ksn(*ks)),
+            Op::OldIns { slot } => write!(f, "old-ins {slot}"),
+            Op::OldRem { slot } => write!(f, "old-rem {slot}"),
+            Op::OldDrop { slot } => write!(f, "old-drop {slot}"),
+            Op::OpenOther { ks } => write!(f, "open-other-opts {}", ksn(*ks)),
         }
     }
 }
@@ -295,6 +312,11 @@ impl Op {
             "reopen" => Op::Reopen,
             "create" => Op::Create { ks: parse_ks(rest)? },
             "delete" => Op::Delete { ks: parse_ks(rest)? },
+            "delete-keep-handle" => Op::DeleteKeep { ks: parse_ks(rest)? },
+            "old-ins" => Op::OldIns { slot: rest.parse().map_err(|_| "slot")? },
+            "old-rem" => Op::OldRem { slot: rest.parse().map_err(|_| "slot")? },
+            "old-drop" => Op::OldDrop { slot: rest.parse().map_err(|_| "slot")? },
+            "open-other-opts" => Op::OpenOther { ks: parse_ks(rest)? },
             "persist" => Op::Persist {
                 mode: ["Buffer", "SyncData", "SyncAll"]
                     .iter()
@@ -363,6 +385,10 @@ pub struct World {
     /// journal files that disappeared during the last operation, with the persisted seqnos at that instant
     pub journal_deletions: Vec<String>,
     pub track_journals: bool,
+    /// incarnation counter per keyspace name (C12 provenance)
+    pub incarnation: BTreeMap<u8, u32>,
+    /// handles of deleted keyspaces that are still alive: (keyspace index, handle)
+    pub old: Vec<Option<(u8, Keyspace)>>,
 }
 
 pub mod fjall_filter {
@@ -473,6 +499,8 @@ impl World {
             journal_records: BTreeMap::new(),
             journal_deletions: vec![],
             track_journals: false,
+            incarnation: BTreeMap::new(),
+            old: vec![],
         };
         for i in 0..w.cfg.nks as u8 {
             w.create_ks(i)?;
@@ -497,6 +525,8 @@ impl World {
             journal_records: BTreeMap::new(),
             journal_deletions: vec![],
             track_journals: false,
+            incarnation: BTreeMap::new(),
+            old: vec![],
         };
         let names: Vec<u8> = w.model.keys().copied().collect();
         for i in names {
@@ -520,6 +550,9 @@ impl World {
             .keyspace(ksn(i), || opts)
             .map_err(|e| Violation::new("create_keyspace", format!("{e:?}")))?;
         self.ks.insert(i, h);
+        if !self.model.contains_key(&i) {
+            *self.incarnation.entry(i).or_insert(0) += 1;
+        }
         self.model.entry(i).or_default();
         Ok(())
     }
@@ -536,11 +569,21 @@ impl World {
         }
     }
 
+    /// the byte value written for value index `v` into keyspace `ks`
+    pub fn val(&self, ks: u8, v: u8) -> Vec<u8> {
+        if self.cfg.prov {
+            format!("{}{}#{}", ksn(ks), self.incarnation.get(&ks).copied().unwrap_or(0), v).into_bytes()
+        } else {
+            value(v)
+        }
+    }
+
     fn mitem(&mut self, it: &Item) {
+        let newv = it.v.map(|v| self.val(it.ks, v));
         let m = self.model.get_mut(&it.ks).expect("model ks");
-        match it.v {
+        match newv {
             Some(v) => {
-                m.insert(KEYS[it.k as usize].to_vec(), value(v));
+                m.insert(KEYS[it.k as usize].to_vec(), v);
             }
             None => {
                 m.remove(KEYS[it.k as usize]);
@@ -586,7 +629,7 @@ impl World {
         let e = |what: &str, e: fjall::Error| Violation::new("op_error", format!("{what}: {e:?}"));
         match op {
             Op::Ins { ks, k, v } => {
-                self.ks[ks].insert(KEYS[*k as usize], value(*v)).map_err(|x| e("insert", x))?;
+                self.ks[ks].insert(KEYS[*k as usize], self.val(*ks, *v)).map_err(|x| e("insert", x))?;
                 self.mitem(&Item { ks: *ks, k: *k, v: Some(*v) });
             }
             Op::Rem { ks, k } => {
@@ -597,7 +640,7 @@ impl World {
                 let mut b = self.dbi().batch();
                 for it in items {
                     match it.v {
-                        Some(v) => b.insert(&self.ks[&it.ks], KEYS[it.k as usize], value(v)),
+                        Some(v) => b.insert(&self.ks[&it.ks], KEYS[it.k as usize], self.val(it.ks, v)),
                         None => b.remove(&self.ks[&it.ks], KEYS[it.k as usize]),
                     }
                 }
@@ -616,7 +659,7 @@ impl World {
                                 .keyspace(ksn(it.ks), KeyspaceCreateOptions::default)
                                 .map_err(|x| e("tx keyspace", x))?;
                             match it.v {
-                                Some(v) => tx.insert(&h, KEYS[it.k as usize], value(v)),
+                                Some(v) => tx.insert(&h, KEYS[it.k as usize], self.val(it.ks, v)),
                                 None => tx.remove(&h, KEYS[it.k as usize]),
                             }
                         }
@@ -626,7 +669,7 @@ impl World {
                         let mut tx = d.write_tx().map_err(|x| e("write_tx", x))?;
                         for it in items {
                             match it.v {
-                                Some(v) => tx.insert(&self.ks[&it.ks], KEYS[it.k as usize], value(v)),
+                                Some(v) => tx.insert(&self.ks[&it.ks], KEYS[it.k as usize], self.val(it.ks, v)),
                                 None => tx.remove(&self.ks[&it.ks], KEYS[it.k as usize]),
                             }
                         }
@@ -654,7 +697,7 @@ impl World {
                 let mut ing = h.start_ingestion().map_err(|x| e("start_ingestion", x))?;
                 for (k, v) in items {
                     match v {
-                        Some(v) => ing.write(KEYS[*k as usize], value(*v)).map_err(|x| e("ingest.write", x))?,
+                        Some(v) => ing.write(KEYS[*k as usize], self.val(*ks, *v)).map_err(|x| e("ingest.write", x))?,
                         None => ing
                             .write_tombstone(KEYS[*k as usize])
                             .map_err(|x| e("ingest.write_tombstone", x))?,
@@ -700,6 +743,16 @@ impl World {
             }
             Op::Reopen => {
                 self.close();
+                if self.cfg.prov {
+                    // C12: once the database is dropped no handle is left: folders of deleted keyspaces must be gone
+                    let dirs = self.keyspace_dirs();
+                    if dirs != self.model.len() {
+                        return Err(Violation::new(
+                            "deleted.folder_remains",
+                            format!("after dropping every handle {dirs} keyspace folders exist on disk but {} keyspaces exist", self.model.len()),
+                        ));
+                    }
+                }
                 let db = open_db(&self.dir, &self.cfg, &self.filter)
                     .map_err(|x| Violation::new("reopen", format!("open failed: {x:?}")))?;
                 self.db = Some(db);
@@ -730,6 +783,36 @@ impl World {
             Op::Persist { mode } => {
                 self.dbi().persist(persist_mode(*mode)).map_err(|x| e("persist", x))?;
             }
+            Op::DeleteKeep { ks } => {
+                let h = self.ks.remove(ks).expect("handle");
+                self.old.push(Some((*ks, h.clone())));
+                self.dbi().delete_keyspace(h).map_err(|x| e("delete_keyspace", x))?;
+                self.model.remove(ks);
+            }
+            Op::OldIns { slot } | Op::OldRem { slot } => {
+                let (_ks, h) = self.old[*slot as usize].as_ref().expect("old handle");
+                let r = if matches!(op, Op::OldIns { .. }) { h.insert("a", "ghost") } else { h.remove("a") };
+                match r {
+                    Err(fjall::Error::KeyspaceDeleted) => {}
+                    other => {
+                        return Err(Violation::new(
+                            "deleted.old_handle_not_refused",
+                            format!("write through a handle of a deleted keyspace returned {other:?} instead of KeyspaceDeleted"),
+                        ))
+                    }
+                }
+            }
+            Op::OldDrop { slot } => {
+                self.old[*slot as usize] = None;
+            }
+            Op::OpenOther { ks } => {
+                let opts = KeyspaceCreateOptions::default()
+                    .max_memtable_size(1234)
+                    .manual_journal_persist(!self.cfg.manual_persist)
+                    .with_kv_separation(if self.cfg.blob { None } else { Some(KvSeparationOptions::default()) });
+                let h = self.dbi().keyspace(ksn(*ks), || opts).map_err(|x| e("keyspace(existing)", x))?;
+                self.ks.insert(*ks, h);
+            }
         }
         Ok(())
     }
@@ -737,7 +820,15 @@ impl World {
     /// Drops every handle (the database is closed afterwards).
     pub fn close(&mut self) {
         self.ks.clear();
+        self.old.clear();
         self.db = None;
+    }
+
+    /// Number of keyspace folders on disk (excluding the meta keyspace `0`).
+    pub fn keyspace_dirs(&self) -> usize {
+        std::fs::read_dir(self.dir.join("keyspaces"))
+            .map(|rd| rd.filter_map(|e| e.ok()).filter(|e| e.file_name() != "0").count())
+            .unwrap_or(0)
     }
 
     /// `observe(ks)` == model for every keyspace.
